@@ -285,7 +285,7 @@ func (svc *service) publish(msg *message.PublishMessage, onComplete OnCompleteFu
 	if err != nil {
 		return fmt.Errorf("(%s) Error sending %s message: %v", svc.cid(), msg.Name(), err)
 	}
-	verifYield("publish.after-write", svc)
+	verifYield("publish.after-write", svc.id)
 
 	switch msg.QoS() {
 	case message.QosAtMostOnce:
@@ -314,7 +314,7 @@ func (svc *service) subscribe(msg *message.SubscribeMessage, onComplete OnComple
 	if err != nil {
 		return fmt.Errorf("(%s) Error sending %s message: %v", svc.cid(), msg.Name(), err)
 	}
-	verifYield("subscribe.after-write", svc)
+	verifYield("subscribe.after-write", svc.id)
 
 	var onc OnCompleteFunc = func(msg, ack message.Message, err error) error {
 		onComplete := onComplete
@@ -391,7 +391,7 @@ func (svc *service) unsubscribe(msg *message.UnsubscribeMessage, onComplete OnCo
 	if err != nil {
 		return fmt.Errorf("(%s) Error sending %s message: %v", svc.cid(), msg.Name(), err)
 	}
-	verifYield("unsubscribe.after-write", svc)
+	verifYield("unsubscribe.after-write", svc.id)
 
 	var onc OnCompleteFunc = func(msg, ack message.Message, err error) error {
 		onComplete := onComplete
@@ -456,7 +456,7 @@ func (svc *service) ping(onComplete OnCompleteFunc) error {
 	if err != nil {
 		return fmt.Errorf("(%s) Error sending %s message: %v", svc.cid(), msg.Name(), err)
 	}
-	verifYield("ping.after-write", svc)
+	verifYield("ping.after-write", svc.id)
 
 	return svc.sess.Pingack.Wait(msg, onComplete)
 }
